@@ -190,18 +190,22 @@ pub(crate) fn parse_type_system_document(
                     if server_object_selectable.is_inline_fragment.0 {
                         WrappedSelectionMapSelection::InlineFragment(target_entity.inner().0)
                     } else {
+                        // The concrete type of this linked field is its own target, if that
+                        // is a concrete type, and not the type the exposed field ends up on.
+                        let linked_field_target_entity_name = target_entity.inner().0;
+                        let linked_field_target_is_concrete =
+                            flattened_entity_named(db, linked_field_target_entity_name)
+                                .and_then(|entity| entity.lookup(db).selection_info.as_object())
+                                .is_some_and(|object_info| object_info.is_concrete.0);
                         WrappedSelectionMapSelection::LinkedField {
                             is_fallible: target_entity.is_nullable(),
                             server_object_selectable_name: server_object_selectable.name.item,
                             arguments: vec![],
-                            concrete_target_entity_name: ConcreteTargetEntityName::Concrete(
-                                target_parent_object_entity_name.item,
-                            )
-                            .note_todo(
-                                "This is 100% a bug when there are \
-                                multiple items in parts_reversed, or this \
-                                field is ignored.",
-                            ),
+                            concrete_target_entity_name: if linked_field_target_is_concrete {
+                                ConcreteTargetEntityName::Concrete(linked_field_target_entity_name)
+                            } else {
+                                ConcreteTargetEntityName::Abstract
+                            },
                         }
                     }
                 })
